@@ -58,7 +58,8 @@ Definition maint_edges : list fedge :=
                          fe_cost := node_dur_sec m * c_maint P |}) slots.
 Definition total_lower_bound : Z := z_sum (map fe_lower service_edges) + z_sum (map fe_lower maint_edges).
 Definition spawning_cost : Z :=
-  fold_left Z.max [c_service P; c_maint P; c_dh P; c_idle P] (c_staff P) * 3 * planning_s * total_lower_bound.
+  (* at least 1 per second, since the repair "fix: spawning a vehicle is never free in the flow network" *)
+  Z.max 1 (fold_left Z.max [c_service P; c_maint P; c_dh P; c_idle P] (c_staff P)) * 3 * planning_s * total_lower_bound.
 Definition depot_ids : list Z := map fst (nw_depots nw).
 Definition depot_edges : list fedge :=
   map (fun d => {| fe_tail := fl_depot d; fe_head := fr_depot d; fe_lower := 0; fe_upper := capacity_of nw d ty;
